@@ -1,8 +1,8 @@
 ---------------------------- MODULE AutoFlushTrace ----------------------------
 (* Trace validation for auto-flushing thread-local metrics: a history RECORDED from the real code (vh_af) must be a
    behaviour of the conservation core of AutoFlush.tla.  The listed properties (C01, C12) fix what a flush hands
-   over, not WHEN an automatic flush happens, so here the flush policy is left open: after any call by thread t
-   any subset of t's leaves may have been flushed.  What is fixed: an update adds its amount to exactly one local
+   over, not WHEN an automatic flush happens, so here the flush policy is left open: before and after the own effect
+   of any call by thread t any subset of t's leaves may have been flushed.  What is fixed: an update adds its amount to exactly one local
    leaf; a flush moves exactly the pending data of the flushed leaves into the shared children, once; get returns
    the pending data; reset/clear discards the pending data of that leaf only; an explicit leaf.flush() flushes at
    least that leaf and handle.flush() every leaf; a thread's exit flushes local histograms (counters: flushed or
@@ -15,10 +15,13 @@ E == Rec[k]
 IsEvent(op) == k <= Len(Rec) /\ Rec[k].op = op /\ k' = k + 1
 AmtEq(r, a) == r.s = a.s /\ (Kind = "hist" => r.n = a.n)
 
-\* thread t's pending data becomes mid (the call's own effect), then the leaves in ls are flushed
-Post(t, mid, ls) ==
-  /\ shared' = [x \in Leaves |-> IF x \in ls THEN Plus(shared[x], mid[x]) ELSE shared[x]]
-  /\ loc' = [loc EXCEPT ![t] = [x \in Leaves |-> IF x \in ls THEN Z ELSE mid[x]]]
+\* an automatic flush may come BEFORE the call's own effect (a may_flush() at the head of the method), AFTER it, or both:
+\* the leaves in pre are flushed, then eff turns t's pending data into mid, then the leaves in post are flushed
+Flushed(t, pre) == [x \in Leaves |-> IF x \in pre THEN Z ELSE loc[t][x]]
+PrePost(t, pre, mid, post) ==
+  /\ shared' = [x \in Leaves |-> Plus(IF x \in pre THEN Plus(shared[x], loc[t][x]) ELSE shared[x], IF x \in post THEN mid[x] ELSE Z)]
+  /\ loc' = [loc EXCEPT ![t] = [x \in Leaves |-> IF x \in post THEN Z ELSE mid[x]]]
+Post(t, mid, ls) == PrePost(t, {}, mid, ls)
 
 TNew == IsEvent("new") /\ clock' = 0 /\ alive' = {} /\ last' = [t \in Threads |-> 0]
         /\ loc' = [t \in Threads |-> ZeroLeaves] /\ shared' = ZeroLeaves /\ added' = ZeroLeaves /\ lost' = ZeroLeaves
@@ -26,14 +29,15 @@ TTick == IsEvent("tick") /\ Tick(E.d)
 TStart == IsEvent("start") /\ Start(E.t)
 TUpd == /\ IsEvent("upd") /\ E.t \in alive
         /\ added' = [added EXCEPT ![E.l] = Plus(@, [n |-> 1, s |-> E.v])]
-        /\ \E ls \in SUBSET Leaves : Post(E.t, [loc[E.t] EXCEPT ![E.l] = Plus(@, [n |-> 1, s |-> E.v])], ls)
+        /\ \E pre, post \in SUBSET Leaves : PrePost(E.t, pre, [Flushed(E.t, pre) EXCEPT ![E.l] = Plus(@, [n |-> 1, s |-> E.v])], post)
         /\ UNCHANGED <<clock, alive, last, lost>>
-TGet == /\ IsEvent("get") /\ E.t \in alive /\ AmtEq(E.res, loc[E.t][E.l])
-        /\ \E ls \in SUBSET Leaves : Post(E.t, loc[E.t], ls)
+TGet == /\ IsEvent("get") /\ E.t \in alive
+        /\ \E pre, post \in SUBSET Leaves : AmtEq(E.res, Flushed(E.t, pre)[E.l]) /\ PrePost(E.t, pre, Flushed(E.t, pre), post)
         /\ UNCHANGED <<clock, alive, last, added, lost>>
 TReset == /\ IsEvent("reset") /\ E.t \in alive
-          /\ lost' = [lost EXCEPT ![E.l] = Plus(@, loc[E.t][E.l])]
-          /\ \E ls \in SUBSET Leaves : Post(E.t, [loc[E.t] EXCEPT ![E.l] = Z], ls)
+          /\ \E pre, post \in SUBSET Leaves :
+                /\ lost' = [lost EXCEPT ![E.l] = Plus(@, Flushed(E.t, pre)[E.l])]
+                /\ PrePost(E.t, pre, [Flushed(E.t, pre) EXCEPT ![E.l] = Z], post)
           /\ UNCHANGED <<clock, alive, last, added>>
 TFlushLeaf == /\ IsEvent("flushleaf") /\ E.t \in alive
               /\ \E ls \in SUBSET Leaves : E.l \in ls /\ Post(E.t, loc[E.t], ls)
